@@ -331,6 +331,88 @@ theorem struct_members_agree_from (cfg : Cfg) (hnd : cfg.members.Nodup) (s0 : St
   obtain ⟨pre, op, post, _, rfl⟩ := mem_scan _ _ _ _ hs
   exact (inv_step cfg hnd _ op (inv_exec cfg hnd pre _ ⟨h0, h1⟩)).2
 
+/-- **struct_members_agree_overlapped** — the same when accesses to the whole struct OVERLAP with assignments of other
+threads (repaired code, `fix:` 8a147a3: the guard counter is kept per thread).  A history is a list of operations each of
+which is either one nothing gets into (`seq`: any operation of `struct_members_agree`, the driver-side assignments of any
+thread among them — they run under `updateLock` as a whole) or a generated `read_<struct>` / `write_<struct>` of the
+per-member layout with an `Overlap`: any lists of assignments to the struct or to members, by other threads, before each
+member is treated, after the loop, between the read of the struct value in `finally` and the update with the merged value,
+before the error is announced; and any values (`seen`) for the cache reads of members without `read_<m>`, which are done
+outside `updateLock` and may see the middle of another thread's update; or a generated member method of the combined
+layout (`readMemberO`: `read_<struct>()[m]`, then the update of the member; `writeMemberO`: read of the cached struct,
+`write_<struct>`, `read_<m>`, update of the member with the value `read_<m>` RETURNED) with any lists of such assignments before
+each of its steps.  At every quiescent point (no operation in progress) struct and members agree.  Every other access is a single
+update under `updateLock` (programmer-written member methods, plain wrappers, `read_/write_<struct>` of the combined layout):
+whatever other threads do comes before or after it, which `seq` covers.  Granularity: what is done under `updateLock` is
+atomic for everybody who takes that lock; a read of the cached struct value outside it is a single reference read and is taken
+at its position. -/
+theorem struct_members_agree_overlapped (cfg : Cfg) (hnd : cfg.members.Nodup) (s0 : St) (h0 : wf cfg s0.struct = true)
+    (h1 : MembersAgree cfg.members s0.struct s0.mem) (ops : List OOp) :
+    ∀ s ∈ orun cfg s0 ops, MembersAgree cfg.members s.struct s.mem := by
+  intro s hs
+  obtain ⟨pre, op, post, _, rfl⟩ := mem_scan _ _ _ _ hs
+  exact (inv_ostep cfg hnd _ op (inv_oexec cfg hnd pre _ ⟨h0, h1⟩)).2
+
+/-- without anything in between, an overlapped access is the access of the sequential model -/
+theorem overlapped_nothing_is_sequential (cfg : Cfg) (rA : RRes Dict) (rB : String → RRes Val) (v : Dict) (wA : WRes Dict)
+    (wB : String → WRes Val) (s : St) :
+    ostep cfg s (.readStructO rA rB {}) = step cfg s (.readStruct rA rB) ∧
+    ostep cfg s (.writeStructO v wA wB {}) = step cfg s (.writeStruct v wA wB) := by
+  have hr : ∀ l m, readIterO cfg rB {} l m = readIter cfg rB l m := by
+    intro l m
+    simp only [readIterO, readIter, interrupt, List.foldl_nil, Option.orElse]
+  have hw : ∀ l m, writeIterO cfg v wB {} l m = writeIter cfg v wB l m := by
+    intro l m
+    simp only [writeIterO, writeIter, interrupt, List.foldl_nil]
+  have hf : ∀ b l, finishLoopO cfg b {} l = finishLoop cfg b l := by
+    intro b l
+    simp only [finishLoopO, finishLoop, interrupt, List.foldl_nil]
+  have hr' : readIterO cfg rB {} = readIter cfg rB := by funext l m; exact hr l m
+  have hw' : writeIterO cfg v wB {} = writeIter cfg v wB := by funext l m; exact hw l m
+  constructor
+  · simp only [ostep, step, readStructO, readStructB, interrupt, List.append_nil, List.foldl_nil, hf, hr']
+  · simp only [ostep, step, writeStructO, writeStructB, interrupt, List.append_nil, List.foldl_nil, hf, hw']
+
+/-- the other half of the defect repaired by `fix:` 8a147a3: with one counter for all threads and a thread switch between the
+load and the store of `insideRW += 1`, two threads that each enter and leave once (every thread performs exactly
+`enterLeave`, in order) can leave the counter at −1 — non-zero for good, so that no member update reaches the struct any more;
+run one after the other they leave it at 0 -/
+theorem shared_counter_update_lost :
+    let sched : List (Nat × CAct) := [(0, .load), (1, .load), (0, .storeInc), (1, .storeInc), (0, .load), (0, .storeDec), (1, .load), (1, .storeDec)]
+    (sched.filter (·.1 = 0)).map (·.2) = enterLeave ∧ (sched.filter (·.1 = 1)).map (·.2) = enterLeave ∧
+    (sched.foldl cstep {}).counter = -1 ∧
+    ((enterLeave.map (fun a => (0, a)) ++ enterLeave.map (fun a => (1, a))).foldl cstep {}).counter = 0 := by
+  decide
+
+def cfgO : Cfg := { members := ["p", "i"], hasRS := false, hasWS := false, hasR := fun _ => true, hasW := fun _ => true, omitUnch := true }
+def sO : St := { struct := [("p", 1), ("i", 2)], mem := [("p", 1), ("i", 2)] }
+
+/-- non-vacuity (`cfgO.members.Nodup`, `sO` consistent): the poller reads the struct and finds nothing new; after it has read
+`p`, another thread assigns `p = 42` — the member update reaches the struct (its callback is not suppressed), so the result
+`{p: 1, i: 2}` is a change again and brings the member back; a second access fails at `i` while another thread assigns the
+whole struct between the read of the struct value in `finally` and the update with the merged value -/
+example : cfgO.members.Nodup ∧ wf cfgO sO.struct = true ∧ membersAgreeB cfgO.members sO.struct sO.mem = true ∧
+    (orun cfgO sO [
+      .readStructO (.fail .secop) (fun m => if m = "p" then .ok 1 else .ok 2)
+        { before := fun m => if m = "i" then [.assignMember "p" 42] else [] },
+      .readStructO (.fail .secop) (fun m => if m = "p" then .ok 5 else .fail .value)
+        { afterRead := [.assignStruct [("p", 7), ("i", 8)]] }]).map (fun s => (s.struct, s.mem, s.ok)) =
+    [([("p", 1), ("i", 2)], [("p", 1), ("i", 2)], true), ([("p", 5), ("i", 2)], [("p", 5), ("i", 2)], false)] := by decide
+
+/-- the defect repaired by `fix:` 8a147a3, on the model: with ONE guard counter for all threads the callback of an
+assignment by another thread is suppressed while an access is in progress (`announceMemberIn` instead of `announceMember`);
+an access that finds nothing new is omitted as unchanged, and struct and member stay different. -/
+theorem shared_guard_loses_member_update :
+    let cfg : Cfg := { members := ["p"], hasRS := false, hasWS := false, hasR := fun _ => true, hasW := fun _ => true, omitUnch := true }
+    let s0 : St := { struct := [("p", 1)], mem := [("p", 1)] }
+    -- read_<struct>: read_p finds 1 (omitted); the other thread assigns p = 42 with its callback suppressed; the result {p: 1} is omitted
+    let l1 := readIter cfg (fun _ => .ok 1) { st := s0 } "p"
+    let s2 := finishLoop cfg true { l1 with st := announceMemberIn cfg "p" 42 l1.st }
+    ¬ MembersAgree cfg.members s2.struct s2.mem := by
+  intro cfg s0 l1 s2
+  rw [← membersAgreeB_iff]
+  decide
+
 def cfgA : Cfg := { members := ["p", "i", "d"], hasRS := true, hasWS := true, hasR := fun _ => false, hasW := fun _ => false }
 def cfgB : Cfg := { members := ["p", "i", "d"], hasRS := false, hasWS := false, hasR := fun m => m != "d", hasW := fun m => m != "d" }
 /-- only `read_<struct>` written, and the programmer's own `read_i` next to it -/
@@ -361,6 +443,19 @@ example : (run cfgC (init cfgC) [
     [([("p", 0), ("i", 6)], [("p", 0), ("i", 6)], true), ([("p", 3), ("i", 6)], [("p", 3), ("i", 6)], true)] := by decide
 
 example : cfgA.members.Nodup ∧ cfgB.members.Nodup ∧ cfgC.members.Nodup := by decide
+
+/-- non-vacuity, combined layout: a generated `write_i(5)` — another thread assigns `p = 9` between the read of the cached
+struct and `write_<struct>` (lost: the struct written was built from the older value), and the whole struct between
+`read_<struct>` and the update of the member (kept, with the value `read_<struct>` returned for `i` on top); then a generated
+`read_d` with assignments before each of its two steps -/
+example : (orun cfgA (init cfgA) [
+      .writeMemberO "i" 5 .retNone (.ok [("p", 9), ("i", 4), ("d", 0)]) (.fail .key)
+        [[], [.assignMember "p" 9], [], [.assignStruct [("p", 1), ("i", 1), ("d", 1)]]],
+      .readMemberO "d" (.ok [("p", 2), ("i", 2), ("d", 2)]) [[.assignMember "d" 7], [.assignMember "i" 8]]]).map
+        (fun s => (s.struct, s.mem, s.ok)) =
+    [([("p", 1), ("i", 4), ("d", 1)], [("p", 1), ("i", 4), ("d", 1)], true),
+     ([("p", 2), ("i", 8), ("d", 2)], [("p", 2), ("i", 8), ("d", 2)], true)] := by decide
+
 
 /-- non-vacuity, unchanged updates omitted (per-member layout): a struct read that finds the values the parameters
 already have sends nothing at all; one that finds a new `p` updates that member and then the struct, whose callback leaves
@@ -787,12 +882,13 @@ section tables
 open Frappy.Generated.C18
 
 /-- the limit postfixes the model knows are the ones `Limit` allows; nobody controls an output and no input is
-marked at start; clients cannot set the control flags; `insideRW` starts at 0; the default window for omitting unchanged
+marked at start; clients cannot set the control flags; `insideRW` starts at 0 and is kept per thread (what
+`struct_members_agree_overlapped` assumes: an access in progress does not suppress the callbacks of another thread); the default window for omitting unchanged
 updates is not 0 (so both values of `omitUnch` occur in a running node) -/
 theorem tables_match_model :
     limitPostfixes = ["limits", "max", "min"] ∧ controlledByMembers = [("self", 0)] ∧ controlledByDefault = 0 ∧
     controlActiveDefault = false ∧ controlActiveReadonly = true ∧ controlledByReadonly = true ∧
-    insideRWInitial = 0 ∧ 0 < omitUnchangedWithinDefaultUs := by decide
+    insideRWInitial = 0 ∧ insideRWPerThread = true ∧ 0 < omitUnchangedWithinDefaultUs := by decide
 
 end tables
 
